@@ -166,7 +166,7 @@ func (n *node) boot() error {
 	n.coord = shutdown.New(60*time.Second, harnessLogger())
 	n.buf, n.walw = simBootIngest(n.cfg, n.fb, n.coord)
 	app := fiber.New(fiber.Config{DisableStartupMessage: true, BodyLimit: 64 << 20})
-	mp := api.NewMsgPackHandler(harnessLogger(), n.buf, 32<<20)
+	mp := api.NewMsgPackHandler(harnessLogger(), n.buf, 1<<20) // 1 MiB payload cap (same code path as the default, cheaper bombs)
 	mp.RegisterRoutes(app)
 	lp := api.NewLineProtocolHandler(n.buf, harnessLogger())
 	lp.RegisterRoutes(app)
